@@ -51,7 +51,7 @@ theorem l1Accepted_eq (l h : UInt64) :
   refine ⟨?_, rfl⟩
   simp only [rpcV10L1Accepted, Std.min_eq_if]
   by_cases hle : l ≤ h
-  · rw [if_pos hle]; rw [UInt64.le_iff_toNat_le] at hle; rw [Nat.min_def, if_pos hle]
-  · rw [if_neg hle]; rw [UInt64.le_iff_toNat_le] at hle; rw [Nat.min_def, if_neg hle]
+  · rw [if_pos hle]; rw [UInt64.le_iff_toNat_le] at hle; rw [if_pos hle]
+  · rw [if_neg hle]; rw [UInt64.le_iff_toNat_le] at hle; rw [if_neg hle]
 
 end Juno.Tie.C08
